@@ -1,7 +1,7 @@
 (* Executable model of fixpnt<n,r,Modulo|Saturate>: raw two's-complement integers
    scaled by 2^-r.  Encodings are Z in [0,2^n). *)
 From Coq Require Import ZArith QArith Lia Bool List.
-From UV Require Import Num Ops Verdict.
+From UV Require Import Num Ops Verdict NativeJudge.
 Import ListNotations.
 Local Open Scope Z_scope.
 
@@ -68,7 +68,7 @@ Definition judge_fixpnt (cfg : list Z) (op : Z) (args res : list Z) : verdict :=
     match f32_decode a with Fin s q => exact [fx_of_Q n r sat (if s then - q else q)%Q] true | _ => mkV true res false end else
   if Z.eqb op OP_from_int then exact [fx_of_Q n r sat (inject_Z (int_decode true a b))] true else
   if Z.eqb op OP_from_uint then exact [fx_of_Q n r sat (inject_Z (int_decode false a b))] true else
-  if Z.eqb op OP_to_f64 then exact [f64_encode (num_of_Q (Qred (fx_val n r a)))] true else
-  if Z.eqb op OP_to_f32 then exact [f32_encode (num_of_Q (Qred (fx_val n r a)))] true else
+  if Z.eqb op OP_to_f64 then judge_to_f64 (num_of_Q (Qred (fx_val n r a))) res else
+  if Z.eqb op OP_to_f32 then judge_to_f32 (num_of_Q (Qred (fx_val n r a))) res else
   if Z.eqb op OP_to_f64_rt then (if Z.leb n 53 then exact [wrap n a] true else mkV true res false) else
   mkV false [] false.
